@@ -577,3 +577,186 @@ Proof.
   - apply N.leb_le. vm_compute. reflexivity.
   - apply Nat.leb_le. vm_compute. reflexivity.
 Qed.
+
+(* ---------- ... for EVERY BUNDLE BUILT FROM PARSED RESOURCES: no premise on named arguments ---------- *)
+From FluentV Require Import Bundle.ParsedBundle.
+From FluentV Require Syntax.ParserModel.
+
+(* "For every bundle built from any parsed resources ... the output is bounded by a fixed multiple of the combined
+   size of resources and arguments."  C06_bounded_bytes and C06_bounded_bytes_linear carry the premise
+   `named_args_ok b p = true`, which an arbitrary association of ids to patterns need not meet
+   (C06_example_named_message_reference).  A bundle BUILT FROM PARSED RESOURCES meets it: here the bundle is
+   `bundle_of ts funcs iso` (Bundle/ParsedBundle.v: add_resource for each tree of ts in order, then add_function for
+   each name of funcs, first registration of an id wins — the construction the executable model runs, equal by
+   reflexivity in Bundle/ParsedBundleAgree.v), every tree of ts is what the model parser returned for SOME byte
+   string (`parse bs = Done (t, errs)`: any source, with or without errors, no hypothesis on bs), and p is a pattern
+   of the bundle (the value or an attribute value of a message or term registered in it).  The parser-output shape
+   theorem (Syntax/ParserShape.v parse_shape; it holds since the repair of finding D32) makes every named-argument
+   value a literal (Bundle/ParsedNamedArgs.v), so the premise is discharged (ParsedBundle.built_named_args_ok), and
+   `sz_pattern p <= C` follows from HC.  What remains are the measures of the inputs and their comparison with the
+   four bounds: (a) strings of the resources, (b) printed arguments, (c) external code, (d) the largest
+   minimumFractionDigits VALUE, which excludes exactly finding D11 (see C06_bounded_bytes). *)
+Section C06_parsed.
+Variable overflow_checks : bool.
+Variable call_function : bytes -> list fvalue -> fargs -> fvalue.
+Variable transform : option (bytes -> bytes).
+Variable formatter : option (fvalue -> option bytes).
+Variable rules : ntype -> rules_fn.
+Variable custom_as_string : bytes -> bytes.
+Variable unescape_write : bytes -> bytes.
+Variable unescape_to_string : bytes -> bytes.
+Variable f64_from_str : bytes -> option fval.
+Variable ts : list resource.          (* the resources, in the order of the add_resource calls *)
+Variable funcs : list bytes.          (* the names registered by add_function *)
+Variable iso : bool.                  (* use_isolating *)
+Variable args : option fargs.
+Variable top : option pkey.
+Variable p : pattern.
+Variable intls : intl_cache.
+Notation b := (bundle_of ts funcs iso).
+(* every resource is an output of the parser *)
+Hypothesis Hparsed : forall t, In t ts -> exists bs errs, ParserModel.parse bs = Done (t, errs).
+(* p is a pattern of the bundle *)
+Hypothesis Hin : In p (bundle_patterns b).
+Variable Lmax Amax Fmax : nat.
+Variable Kmax : N.
+Hypothesis Ha : strings_max b p <= Lmax.                                (* (a) *)
+Hypothesis Hb : args_size custom_as_string args <= Amax.                (* (b) *)
+Hypothesis Hc : external_bounded call_function transform formatter custom_as_string unescape_write
+                  unescape_to_string f64_from_str Lmax Fmax.            (* (c) *)
+Hypothesis Hd : (mfd_max f64_from_str b p <= Kmax)%N.                   (* (d): excludes D11 *)
+
+(* widest piece x number of pieces (C as in C06_bounded_partial) *)
+Theorem C06_bounded_bytes_parsed :
+  forall C : nat, (forall q, In q (bundle_patterns b) -> sz_pattern q <= C) ->
+  let B := Nat.max Lmax (Nat.max Amax Fmax) in
+  let W := B + Nat.max (N.to_nat Kmax) B + 3 in
+  (forall fuel toks sc,
+     write_pattern overflow_checks call_function transform formatter rules custom_as_string
+       unescape_write unescape_to_string f64_from_str b args fuel top p intls = Done (toks, sc) ->
+     length (flatten toks) <= W * (C + (N.to_nat MAX_PLACEABLES + 1) * (C + 8))) /\
+  (forall fuel text sc,
+     format_pattern overflow_checks call_function transform formatter rules custom_as_string
+       unescape_write unescape_to_string f64_from_str b args fuel top p intls = Done (text, sc) ->
+     length text <= W * (C + (N.to_nat MAX_PLACEABLES + 1) * (C + 8))).
+Proof.
+  intros C HC.
+  exact (C06_bounded_bytes overflow_checks call_function transform formatter rules custom_as_string
+           unescape_write unescape_to_string f64_from_str b args top p intls C HC (HC p Hin) Lmax Amax Fmax Kmax
+           (built_named_args_ok ts funcs iso p Hparsed Hin) Ha Hb Hc Hd).
+Qed.
+
+(* the fixed multiple: 102 Tmax + 808 W, W <= 2 max(L, A, F) + K + 3 (Tmax as in C06_bounded_bytes_linear) *)
+Theorem C06_bounded_bytes_linear_parsed :
+  forall Tmax : nat, text_max transform b p <= Tmax ->
+  let B := Nat.max Lmax (Nat.max Amax Fmax) in
+  let W := B + Nat.max (N.to_nat Kmax) B + 3 in
+  (forall fuel toks sc,
+     write_pattern overflow_checks call_function transform formatter rules custom_as_string
+       unescape_write unescape_to_string f64_from_str b args fuel top p intls = Done (toks, sc) ->
+     length (flatten toks) <= Tmax + (N.to_nat MAX_PLACEABLES + 1) * (Tmax + 8 * W)) /\
+  (forall fuel text sc,
+     format_pattern overflow_checks call_function transform formatter rules custom_as_string
+       unescape_write unescape_to_string f64_from_str b args fuel top p intls = Done (text, sc) ->
+     length text <= Tmax + (N.to_nat MAX_PLACEABLES + 1) * (Tmax + 8 * W)).
+Proof.
+  intros Tmax Ht.
+  exact (C06_bounded_bytes_linear overflow_checks call_function transform formatter rules custom_as_string
+           unescape_write unescape_to_string f64_from_str b args top p intls Lmax Amax Fmax Kmax Tmax
+           (built_named_args_ok ts funcs iso p Hparsed Hin) Ha Hb Hc Hd Ht).
+Qed.
+
+End C06_parsed.
+Print Assumptions C06_bounded_bytes_parsed.
+Print Assumptions C06_bounded_bytes_linear_parsed.
+
+(* ---------- non-vacuity: FTL text -> model parser -> bundle -> bound ---------- *)
+(* a term called with a named literal argument, a NUMBER call with minimumFractionDigits, message and attribute
+   references *)
+Definition parsed_ftl : bytes :=
+  s "-t = <{ $x }>" ++ [10%N] ++
+  s "hello = Hello { -t(x: ""abc"") }!" ++ [10%N] ++
+  s "    .title = { NUMBER(2, minimumFractionDigits: 3) }" ++ [10%N] ++
+  s "bye = Bye { hello } { hello.title }" ++ [10%N].
+Definition parsed_tree : resource :=
+  match ParserModel.parse parsed_ftl with Done (t, _) => t | _ => [] end.
+Definition parsed_b : bundle := bundle_of [parsed_tree] [s "NUMBER"] true.
+Definition parsed_p : pattern :=
+  match get_entry_message parsed_b (s "bye") with Some (Some q, _) => q | _ => Pattern [] end.
+
+(* the parser returns three entries and no error; the term call carries the named argument x: "abc" *)
+Example C06_example_parsed_tree :
+  ParserModel.parse parsed_ftl = Done (parsed_tree, []) /\
+  map (fun e => match e with Message id _ _ _ => id | Term id _ _ _ => id | _ => [] end) parsed_tree = [s "t"; s "hello"; s "bye"] /\
+  get_entry_message parsed_b (s "hello") =
+    Some (Some (Pattern [TextElement (s "Hello ");
+                         PlaceableElement (Inline (TermReference (s "t") None
+                           (Some (CallArguments [] [NamedArgument (s "x") (StringLiteral (s "abc"))]))));
+                         TextElement (s "!")]),
+          [Attribute (s "title")
+             (Pattern [PlaceableElement (Inline (FunctionReference (s "NUMBER")
+                (CallArguments [NumberLiteral (s "2")]
+                               [NamedArgument (s "minimumFractionDigits") (NumberLiteral (s "3"))])))])]).
+Proof. vm_compute. repeat split. Qed.
+
+Lemma parsed_premises :
+  (forall t, In t [parsed_tree] -> exists bs errs, ParserModel.parse bs = Done (t, errs)) /\
+  In parsed_p (bundle_patterns parsed_b).
+Proof.
+  split.
+  - intros t [<- | []]. exists parsed_ftl, []. vm_compute. reflexivity.
+  - vm_compute. do 3 right. left. reflexivity.
+Qed.
+
+(* the measures: L = 11 (the fallback text hello.title), K = 3, Tmax = 7 ("Hello !"), C = 4; named_args_ok is
+   computed here only to show it; the theorems do not ask for it *)
+Example C06_example_parsed_measures :
+  (named_args_ok parsed_b parsed_p, strings_max parsed_b parsed_p, mfd_max f64_from_str_exact parsed_b parsed_p,
+   text_max None parsed_b parsed_p, list_max (map sz_pattern (bundle_patterns parsed_b)))
+  = (true, 11, 3%N, 7, 4).
+Proof. vm_compute. reflexivity. Qed.
+
+(* W = 12 + 12 + 3: at most 27 x 1216 = 32832 bytes, for every fuel *)
+Example C06_example_parsed_bytes :
+  forall fuel toks sc,
+    write_pattern true ex_call None None ex_rules_one ex_id ex_id ex_id f64_from_str_exact parsed_b None
+      fuel (Some (PKey false (s "bye") None)) parsed_p [] = Done (toks, sc) ->
+    length (flatten toks) <= (12 + Nat.max 3 12 + 3) * (4 + (N.to_nat MAX_PLACEABLES + 1) * (4 + 8)).
+Proof.
+  intros fuel toks sc H.
+  refine (proj1 (C06_bounded_bytes_parsed true ex_call None None ex_rules_one ex_id ex_id ex_id f64_from_str_exact
+                   [parsed_tree] [s "NUMBER"] true None (Some (PKey false (s "bye") None)) parsed_p []
+                   (proj1 parsed_premises) (proj2 parsed_premises) 11 0 12 3%N _ _ _ _ 4 _) fuel toks sc H).
+  - apply Nat.leb_le. vm_compute. reflexivity.
+  - apply Nat.leb_le. vm_compute. reflexivity.
+  - exact (ex_external_bounded 11).
+  - apply N.leb_le. vm_compute. reflexivity.
+  - apply sz_bound_check. vm_compute. reflexivity.
+Qed.
+
+(* the fixed multiple: at most 7 + 101 x (7 + 216) = 22530 bytes *)
+Example C06_example_parsed_linear :
+  forall fuel toks sc,
+    write_pattern true ex_call None None ex_rules_one ex_id ex_id ex_id f64_from_str_exact parsed_b None
+      fuel (Some (PKey false (s "bye") None)) parsed_p [] = Done (toks, sc) ->
+    length (flatten toks) <= 7 + (N.to_nat MAX_PLACEABLES + 1) * (7 + 8 * (12 + Nat.max 3 12 + 3)).
+Proof.
+  intros fuel toks sc H.
+  refine (proj1 (C06_bounded_bytes_linear_parsed true ex_call None None ex_rules_one ex_id ex_id ex_id f64_from_str_exact
+                   [parsed_tree] [s "NUMBER"] true None (Some (PKey false (s "bye") None)) parsed_p []
+                   (proj1 parsed_premises) (proj2 parsed_premises) 11 0 12 3%N _ _ _ _ 7 _) fuel toks sc H).
+  - apply Nat.leb_le. vm_compute. reflexivity.
+  - apply Nat.leb_le. vm_compute. reflexivity.
+  - exact (ex_external_bounded 11).
+  - apply N.leb_le. vm_compute. reflexivity.
+  - apply Nat.leb_le. vm_compute. reflexivity.
+Qed.
+
+(* ... and the call returns: "Bye Hello <(FSI)abc(PDI)>! 2.000", 10 pieces, 28 bytes, no error *)
+Example C06_example_parsed_run :
+  match write_pattern true ex_call None None ex_rules_one ex_id ex_id ex_id f64_from_str_exact parsed_b None
+          (fuel_of parsed_b parsed_p) (Some (PKey false (s "bye") None)) parsed_p [] with
+  | Done (t, sc) => Some (length t, length (flatten t), sc_errors sc)
+  | _ => None
+  end = Some (10, 28, []).
+Proof. vm_compute. reflexivity. Qed.
